@@ -25,6 +25,7 @@ int __real_posix_memalign(void **, size_t, size_t);
 
 static volatile int ip_inside = 0; /* 1 while library code (or operand set-up) runs */
 static int ip_fill_mode = 0;       /* 0 none, 1 0x00, 2 0xFF, 3 0xA5, 4 PRNG */
+static volatile int ip_armed = 0;   /* fault injection and request counting apply only while armed */
 static long ip_fail_at = 0;        /* fail the n-th request made while inside (1-based); 0 = never */
 static int ip_trace = 0;
 static long ip_requests = 0; /* requests seen while inside */
@@ -112,7 +113,7 @@ static void ip_fill(void *p, size_t n) {
 }
 
 static int ip_should_fail(void) {
-  if (!ip_inside) return 0;
+  if (!ip_inside || !ip_armed) return 0;
   ip_requests++;
   if (ip_fail_at && ip_requests == ip_fail_at) {
     ip_faults_fired++;
